@@ -100,9 +100,7 @@ func (f *Do) Call(s *slip.Scope, args slip.List, depth int) (result slip.Object)
 					if tr.Tag == nil {
 						return tr.Result
 					}
-					if s.Block {
-						return tr
-					}
+					return tr
 				case *GoTo:
 					// The tag can be anywhere in the body, before the go
 					// as well.
